@@ -96,6 +96,13 @@ def snapshot(h, *, with_stats: bool = True) -> Dict[str, Any]:
         try:
             st = h.statistics
             s["statistics"] = tuple(_scalar(getattr(st, f)) for f in ("sum", "sum2", "min", "max", "weight", "median"))
+            # precision of the recorded sums (a float16 / float32 factor turns them into narrow numpy scalars)
+            eps = 2.3e-16
+            for f in ("sum", "sum2", "weight"):
+                v = getattr(st, f)
+                if isinstance(v, np.floating):
+                    eps = max(eps, float(np.finfo(type(v)).eps))
+            s["statistics_eps"] = eps
         except Exception as e:
             s["statistics"] = ("error", type(e).__name__)
     return s
